@@ -35,6 +35,10 @@ static int g_io_busy[multicry_master::THREAD_MAX];
 static std::vector<std::string> g_overlap;
 #define g_bg (buffergroup::instance)
 
+// shared objects for the independence relation (sleep-set mode): per buffer i
+enum { OBJ_M = 0, OBJ_CVR = 1, OBJ_CVU = 2, OBJ_CUR = 3, OBJ_BYT = 4 };
+static inline long OBJ(int i, int k) { return 10L * i + k; }
+static inline long OBJ_STREAM(int j) { return 1000 + j; }
 static int buf_index_of(const void *p) {
   if (!g_bg || !g_bg->buflst) return -1;
   const char *c = (const char *)p, *base = (const char *)g_bg->buflst;
@@ -49,7 +53,7 @@ static void stream_event(int stream, u8_t *block) {
   long slot = -1;
   if (bi >= 0) slot = (long)((block - (u8_t *)g_bg->buflst[bi].b) / 16);
   if (bi >= 0 && vs_active()) {
-    if (COARSE == 0) vs_point(100, bi);
+    if (COARSE == 0) { vs_fp_t fp[2] = {{OBJ(bi, OBJ_BYT), 1}, {OBJ_STREAM(stream), 1}}; vs_point_fp(100, bi, fp, 2); }
     vs_access(2 * bi + 1, 1, 100 + stream);
     vs_access(32 + stream, 1, 200 + stream); // the stream object itself: two threads may use it only if ordered by happens-before
     if (g_io_busy[bi]) note_overlap("worker-block-during-io", bi);
@@ -91,7 +95,18 @@ extern "C" void wencry_verif_point(int kind, long index, long aux) {
   if (bi < 0 || bi >= multicry_master::THREAD_MAX) { vs_point(kind, -1); return; }
   // scheduling point first: the access happens after the point
   bool is_sched = COARSE <= 1 || kind == WV_W_GET; // in coarse mode only lock operations and block hand-outs are points
-  if (is_sched) vs_point(kind, bi);
+  if (is_sched) {
+    vs_fp_t fp[2];
+    int n = 0;
+    switch (kind) {
+    case WV_W_GET: fp[n++] = {OBJ(bi, OBJ_CUR), 1}; break;
+    case WV_W_STATE: case WV_IO_STATE: fp[n++] = {OBJ(bi, OBJ_M), 0}; break;
+    case WV_BUF_LOAD_STEP: fp[n++] = {aux == 0 ? OBJ(bi, OBJ_BYT) : OBJ(bi, OBJ_CUR), 1}; break;
+    case WV_BUF_EXPORT_STEP: fp[n++] = {OBJ(bi, OBJ_CUR), 0}; fp[n++] = {OBJ(bi, OBJ_BYT), 0}; break;
+    default: fp[n++] = {OBJ(bi, OBJ_CUR), 1}; fp[n++] = {OBJ(bi, OBJ_BYT), 1}; break; // export/load begin/end bracket accesses to both
+    }
+    vs_point_fp(kind, bi, fp, n);
+  }
   switch (kind) {
   case WV_W_GET: {
     iobuffer &b = g_bg->buflst[bi];
@@ -121,6 +136,29 @@ static long group_of(int op, void *obj) {
   const char *c = (const char *)obj, *base = (const char *)g_bg->ctrl;
   if (c >= base && c < base + sizeof(bufferctrl) * g_bg->size) return (long)((c - base) / sizeof(bufferctrl));
   return -1;
+}
+static int fp_of_pthread_op(int op, void *obj, vs_fp_t out[VS_MAXFP]) {
+  (void)op;
+  if (!g_bg || !g_bg->ctrl) return -1;
+  const char *c = (const char *)obj, *base = (const char *)g_bg->ctrl;
+  if (c < base || c >= base + sizeof(bufferctrl) * g_bg->size) return -1;
+  int i = (int)((c - base) / sizeof(bufferctrl));
+  bufferctrl &b = g_bg->ctrl[i];
+  if (obj == (void *)&b.lock) { out[0] = {OBJ(i, OBJ_M), 1}; return 1; }
+  if (obj == (void *)&b.cv_ready) { out[0] = {OBJ(i, OBJ_CVR), 1}; out[1] = {OBJ(i, OBJ_M), 1}; return 2; }
+  if (obj == (void *)&b.cv_update) { out[0] = {OBJ(i, OBJ_CVU), 1}; out[1] = {OBJ(i, OBJ_M), 1}; return 2; }
+  out[0] = {OBJ(i, OBJ_M), 1};
+  return 1;
+}
+// function-entry/exit callbacks from the cipher-stream translation units when they are built with
+// -finstrument-functions (build variant "instr"): scheduling points INSIDE runcry()/runaes_128bit()/ctrInc(),
+// so that two workers can be interleaved within the stream code (which has no source hooks)
+static int STREAMPOINTS = 0;
+extern "C" {
+void __cyg_profile_func_enter(void *, void *) __attribute__((no_instrument_function));
+void __cyg_profile_func_exit(void *, void *) __attribute__((no_instrument_function));
+void __cyg_profile_func_enter(void *, void *) { if (STREAMPOINTS && vs_active() && vs_self() > 0) { vs_fp_t fp = {2000, 1}; vs_point_fp(300, -1, &fp, 1); } }
+void __cyg_profile_func_exit(void *, void *) { if (STREAMPOINTS && vs_active() && vs_self() > 0) { vs_fp_t fp = {2000, 1}; vs_point_fp(301, -1, &fp, 1); } }
 }
 static int g_ofd = -1;
 static uint64_t obs_hash() {
@@ -161,6 +199,7 @@ static void scenario_pipe(std::string &obs) {
   for (int i = 0; i < Tn; i++) m.push_back(ENC ? (Aesmode *)new ChainEnc(IV0, i) : (Aesmode *)new ChainDec(IV0, i));
   buffergroup::get_instance()->set_buffergroup(Tn, fi, fo, ENC);
   vs_group_of = group_of;
+  vs_fp_of = fp_of_pthread_op;
   vs_obs_hash = obs_hash;
   multicry_master mm(Tn);
   obs = "running";
@@ -255,6 +294,7 @@ int main(int argc, char **argv) {
   ENC = (int)a.num("enc", 1);
   COARSE = (int)a.num("coarse", 0);
   SCEN = a.str("scenario", "pipe");
+  STREAMPOINTS = (int)a.num("instr", 0);
   RAWDEC = (int)a.num("rawdec", 0); // decrypt direction on a raw body of exactly `len` bytes (need not be a multiple of 16): output is unspecified, termination and ownership are not
   CMODE = (int)a.num("cmode", 1);
   HMODE = (int)a.num("hmode", 0);
@@ -265,6 +305,7 @@ int main(int argc, char **argv) {
   cfg.spurious = (int)a.num("spurious", 0);
   cfg.maxexec = a.num("maxexec", -1);
   cfg.deadline_s = (double)a.num("deadline", -1);
+  cfg.until_epoch = (double)a.num("until", -1);
   cfg.shard = (int)a.num("shard", 0);
   cfg.nshards = (int)a.num("nshards", 1);
   cfg.alarm_s = (int)a.num("alarm", 10);
@@ -284,7 +325,7 @@ int main(int argc, char **argv) {
     if (ENC) { IN = P; EXP = F; } else { IN = F; EXP = P; }
     sc = scenario_e2e;
   }
-  std::string cfgname = SCEN + ":T=" + std::to_string(Tn) + ",len=" + std::to_string(len) + ",enc=" + std::to_string(ENC) + ",S=" + std::to_string(S) + (RAWDEC ? ",rawbody" : "") + (COARSE == 1 ? ",medium" : COARSE == 2 ? ",coarse" : "") + (cfg.sleep ? ",sleepsets" : (cfg.delay ? ",delaybound=" : ",bound=") + std::to_string(cfg.bound)) + (cfg.spurious ? ",spurious=" + std::to_string(cfg.spurious) : "");
+  std::string cfgname = SCEN + ":T=" + std::to_string(Tn) + ",len=" + std::to_string(len) + ",enc=" + std::to_string(ENC) + ",S=" + std::to_string(S) + (RAWDEC ? ",rawbody" : "") + (STREAMPOINTS ? ",stream-code-points" : "") + (SCEN == "e2e" ? ",cmode=" + std::to_string(CMODE) : "") + (COARSE == 1 ? ",medium" : COARSE == 2 ? ",coarse" : "") + (cfg.sleep ? ",sleepsets" : (cfg.delay ? ",delaybound=" : ",bound=") + std::to_string(cfg.bound)) + (cfg.spurious ? ",spurious=" + std::to_string(cfg.spurious) : "");
 
   if (a.has("replay")) { // run one schedule twice, print observations, exit 0 iff identical
     std::vector<int> pre = a.list("replay");
@@ -319,7 +360,7 @@ int main(int argc, char **argv) {
         if (x.outcome == vx::OC_TIMEOUT && y.outcome != vx::OC_TIMEOUT) { reported[k]--; continue; } // slow machine, not a hang
         bool same = false;
         for (auto &e2 : classify_all(y)) if (e2.prop == e.prop && e2.key == e.key) same = true;
-        std::string rargs = "T=" + std::to_string(Tn) + " len=" + std::to_string(len) + " enc=" + std::to_string(ENC) + " scenario=" + SCEN + " cmode=" + std::to_string(CMODE) + " hmode=" + std::to_string(HMODE) + " coarse=" + std::to_string(COARSE) + " rawdec=" + std::to_string(RAWDEC) + " spurious=" + std::to_string(cfg.spurious) + " sleep=" + std::to_string(cfg.sleep ? 1 : 0) + " prop=" + e.prop + " bufsz=" + std::to_string(NB);
+        std::string rargs = "T=" + std::to_string(Tn) + " len=" + std::to_string(len) + " enc=" + std::to_string(ENC) + " scenario=" + SCEN + " cmode=" + std::to_string(CMODE) + " hmode=" + std::to_string(HMODE) + " coarse=" + std::to_string(COARSE) + " rawdec=" + std::to_string(RAWDEC) + " instr=" + std::to_string(STREAMPOINTS) + " spurious=" + std::to_string(cfg.spurious) + " sleep=" + std::to_string(cfg.sleep ? 1 : 0) + " prop=" + e.prop + " bufsz=" + std::to_string(NB);
         J().s("t", "viol").s("prop", e.prop).s("key", e.key).s("desc", "[" + cfgname + "] " + e.desc + " | deviations=" + std::to_string(vx::deviations_of(x)) + (same ? " | replayed: same verdict" : " | REPLAY DIFFERS: " + vkeys(classify_all(y))))
             .raw("replay", J().s("harness", "pipe_explore").s("args", rargs).raw("schedule", jarr(ch)).n("bufsz", NB).str()).bo("confirmed", same).emit();
       }
